@@ -27,7 +27,8 @@ EXPLANATION = (
     "request's Connection: close sets the close intent on every path, the response carries the matching Connection header, and the "
     "close is performed after a successful send outside the send's critical section. R7 necessary condition for response order: two "
     "requests of one connection must not be dispatched concurrently — the rule looks for a proof of per-connection serialisation at "
-    "the dispatch site.")
+    "the dispatch site. R8 (= C15-R4) every throwing primitive on the I/O-thread framing path sits in a try whose handlers cover every "
+    "exception type it can throw, so an unparsable request ends in a status or a close and never in an exception that leaves it waiting.")
 NOT_DECIDED = ["handler run times and scheduling", "well-formedness of headers a handler writes by hand (raw body without set_content)", "that the peer reads what was queued", "exceptions thrown after the response was handed to the transport (assumed none)"]
 
 
@@ -643,3 +644,9 @@ def run(ctx, ck):
     ck.run_rule("C16-R5", "a throwing handler yields 500; a parse failure yields an error status followed by close", "A3 who-may-call + A9 handler coverage", lambda r: r5(ctx, r))
     ck.run_rule("C16-R6", "Connection: close is honoured and announced; close happens after the send outside its critical section", "A5 + A1", lambda r: r6(ctx, r))
     ck.run_rule("C16-R7", "requests of one connection are not dispatched concurrently (necessary for response order)", "A3 proof-of-serialisation search", lambda r: r7(ctx, r))
+    # "a request that cannot be parsed yields an error status or a closed connection - never a connection left waiting with neither":
+    # an exception that escapes the framing code on the I/O thread ends the loop with the request (and every other connection)
+    # unanswered and unclosed.  Same rule as C15-R4 (every throwing primitive on the I/O-thread path is inside a try whose
+    # handlers cover every exception type it can throw), reported under this property as well.
+    from . import c15 as _c15
+    ck.run_rule("C16-R8", "no exception escapes the request framing on the I/O thread (unparsable request → status or close, never neither)", "A9 handler coverage (= C15-R4)", lambda r: _c15.r4(ctx, r))
